@@ -5,6 +5,7 @@ import (
 	"errors"
 	"fmt"
 	"io"
+	"math"
 	"slices"
 	"strconv"
 	"strings"
@@ -64,7 +65,11 @@ type Number interface {
 func Hashable(o Object) bool {
 	switch o.Type() { //nolint:exhaustive // We have all the types that are hashable + default for the others.
 	// register because it's a pointer though dubious whether it's hashable for cache key.
-	case INTEGER, FLOAT, BOOLEAN, NIL, STRING, REGISTER:
+	case FLOAT:
+		// -0.0 == 0.0 as a Go map key but they are different values (they print differently): don't mix them up.
+		f := o.(Float).Value
+		return !(f == 0 && math.Signbit(f))
+	case INTEGER, BOOLEAN, NIL, STRING, REGISTER:
 		return true
 	case ARRAY:
 		if sa, ok := o.(SmallArray); ok {
